@@ -66,3 +66,18 @@ func init() {
 		NotDecided: "the exactly-once conclusion is the composition of these with C04/C17; argued, not computed.",
 	}
 }
+
+func init() {
+	properties["C15"] = &Property{
+		Title: "the parser buffer is a faithful, bounded sliding view",
+		Rules: []string{"R-INDEXGUARD", "R-DEADERR", "R-WRITEBOUND", "R-READBOUND", "R-READFROM", "R-MARGIN", "R-SHRINK-PB", "R-SHRINK-WRAP"},
+		Decided: "index/slice guards of the accessors, reachability of the documented errors, byte bounds of Write/ReadFrom, 7-byte margin, Shrink arithmetic and its wrappers.",
+		NotDecided: "that the byte at absolute offset x is the x-th byte fed (contents equality); behaviour under caller mutation of exported fields.",
+	}
+	properties["C08"] = &Property{
+		Title: "Wrap streams a reader completely",
+		Rules: []string{"R-WRAP-ORDER", "R-READFROM", "R-READBOUND"},
+		Decided: "Shrink-before-ReadFrom, retry iff bytes were read, return discipline of the wrap loop; ReadFrom keeps bytes read with an error, leaves its loop only on error/full, returns the byte difference.",
+		NotDecided: "io.EOF stickiness (a property of the reader), equality of block sequences across chunkings (needs C01, C13).",
+	}
+}
